@@ -403,7 +403,7 @@ def copy_node(n):
     return _c.deepcopy(n)
 
 
-def conc_template(depth, fan, width=2, map_at=None, async_leaves=True, sync_last=False, pool=False, gen_last=False, bad_arity=False):
+def conc_template(depth, fan, width=2, map_at=None, async_leaves=True, sync_last=False, pool=False, gen_last=False, bad_arity=False, wrap=False):
     """Nested / mapped shape for the concurrency checks: `depth` nested graph levels, each with
     `width` parallel leaves and a join; at level `map_at` the nested node maps over a list of `fan`
     items.  Returns (prog, provided, lists)."""
@@ -457,6 +457,12 @@ def conc_template(depth, fan, width=2, map_at=None, async_leaves=True, sync_last
         assert map_at == 1
         return IR.prog("top", [top_nodes[-1]], max_iter=50), [provided[-1]], lists
     top_nodes.append(A("Z", [f"t{i}" for i in range(width)] + (["r1"] if depth >= 1 else []), ["z"]))
+    if wrap:
+        # the top-level graph consists of exactly ONE node: a nested graph holding everything
+        inner = IR.prog("W", top_nodes, max_iter=50, selected=["z"])
+        ins = ["v"] + (["vs"] if map_at is not None else [])
+        gn = IR.graph_node(inner, name="W", inputs=ins, inmap=[[p, p] for p in ins], outputs=["z"], outmap=[["z", "z"]])
+        return IR.prog("top", [gn], max_iter=50), provided, lists
     return IR.prog("top", top_nodes, max_iter=50), provided, lists
 
 
